@@ -214,6 +214,7 @@ def getOp (j : Json) : Except String Op := do
     | "accept" => pure .accept | "acceptbg" => pure .acceptbg | "lclose" => pure .lclose
     | "write" => pure .write | "read" => pure .read | "readbg" => pure .readbg | "join" => pure .join
     | "closeconn" => pure .closeconn | "closemux" => pure .closemux | "cut" => pure .cut
+    | "tear" => pure .tear
     | k => throw s!"unknown op {k}"
   let len ← getNat j "len"
   let seed ← getNat j "seed"
@@ -296,6 +297,19 @@ def scriptSpec (ops : Array Op) (res : Array Seen) (late : List (Nat × Seen)) (
           if bytes ≥ left then cutAt := some i
           else armed := (op.x, left - bytes) :: armed.filter (·.1 != op.x)
         | _, _ => pure ()
+  -- … and a header write torn after 1..7 bytes (op `tear` followed by the Write that failed
+  -- on the trunk): from then on that end must be dead
+  let mut tornAt : List (Nat × Nat) := []        -- (end, op index of the torn write)
+  let mut tearArmed : List (Nat × Nat) := []
+  for i in [0:ops.size] do
+    let op : Op := ops[i]!
+    if op.kind == OpKind.tear then tearArmed := (op.x, op.k) :: tearArmed.filter (·.1 != op.x)
+    else if op.kind == OpKind.write then
+      match tearArmed.find? (·.1 == op.x), res[i]! with
+      | some (_, k), .err "wfail" =>
+        tearArmed := tearArmed.filter (·.1 != op.x)
+        if k ≥ 1 && k < 8 then tornAt := (op.x, i) :: tornAt
+      | _, _ => pure ()
   for x in [0, 1] do
     -- when is end x known to be closed?  (first Read error on a conn that was not closed
     -- individually, or a returned mux Close)
@@ -327,7 +341,10 @@ def scriptSpec (ops : Array Op) (res : Array Seen) (late : List (Nat × Seen)) (
         match op.kind with
         | .closeconn | .closemux | .lclose =>
           out := fail out s!"op {i}: close did not return" "C11:close-hangs"
-        | .read | .readbg | .write =>
+        | .write =>
+          -- script payloads are far below the socket buffer: a Write never waits for the peer
+          out := fail out s!"op {i}: Write did not return" "C11:write-hangs"
+        | .read | .readbg =>
           match closedAt with
           | some c =>
             let lateOpen := match openedAt.find? (·.1 == op.h) with
@@ -343,6 +360,13 @@ def scriptSpec (ops : Array Op) (res : Array Seen) (late : List (Nat × Seen)) (
                 out := fail out s!"op {i}: Read still blocked although the trunk was cut at op {c}" "C11:blocked-after-cut"
             | none => pure ()
         | _ => pure ()
+      match tornAt.find? (·.1 == x) with
+      | some (_, t) =>
+        if i > t then
+          match op.kind, r with
+          | .write, .ok _ => out := fail out s!"op {i}: Write succeeded although the header write of op {t} was torn: the mux did not stop" "C11:write-ok-after-torn-header"
+          | _, _ => pure ()
+      | none => pure ()
       -- results after the close
       match closedAt with
       | some c =>
